@@ -629,6 +629,13 @@ func (o *orbitDB) Open(ctx context.Context, dbAddress string, options *CreateDBO
 
 func copyCreateDBOptions(options *CreateDBOptions) *CreateDBOptions {
 	c := *options
+
+	// the access-controller parameters are filled in on the way (name, type, the creator's
+	// own id as the default write list, the address): the caller's object stays as it is
+	if c.AccessController != nil {
+		c.AccessController = accesscontroller.CloneManifestParams(c.AccessController)
+	}
+
 	return &c
 }
 
